@@ -29,6 +29,7 @@ def units(tier, seed):
     if tier == "quick":
         codes = _g.sparse_codes(5, 4, (1, 2, 3))
         out += [{"stage": "sparse5", "p": 5, "codes": c} for c in split_list(codes, 32)]
+    out += [{"stage": "wide", "p": _g.WIDE_P, "codes": c} for c in split_list(_g.wide_sparse_codes("pdag"), 16)]
     if tier == "thorough":
         out += _g.pdag_units("pdag", 5, 256)
         codes = _g.sparse_codes(6, 4, (1, 2, 3))
@@ -95,7 +96,7 @@ def run_unit(unit):
         acc.extra["with_extension" if nE else "without_extension"] += 1
         if has_und and G.nedges(p, code) >= 2:
             acc.nontrivial += 1
-        acc.outcome([nE > 0, nE > 1])
+        acc.outcome([p, nE, G.nedges(p, code)])
         if has_und and nE > 1 and len(acc.samples) < 1 and acc.states > 30:
             ch, und = G.decode(p, code)
             acc.sample({"pdag": G.to_matrix(p, ch, und), "n_extensions": nE})
@@ -113,7 +114,7 @@ def describe(tier, seed):
     return {
         "technique": "exhaustive enumeration of all PDAGs in a small scope, real code vs brute-force extension sets",
         "rule": "every base-4 edge code on p labelled nodes whose directed part is acyclic (p<=4 plus 5-node PDAGs with <=4 edges quick; all of p=5 and "
-                "6-node PDAGs with <=4 edges thorough); per PDAG: pdag_to_dag, has_consistent_extension and (when an extension exists) "
+                "6-node PDAGs with <=4 edges thorough; every 10-node PDAG with <=2 edges); per PDAG: pdag_to_dag, has_consistent_extension and (when an extension exists) "
                 "maximally_orient compared with the brute-force set of consistent extensions and its union graph; non-trivial = "
                 "has an undirected edge and >= 2 edges",
         "exhaustive": True,
